@@ -144,6 +144,8 @@ impl MemcacheBinaryConnection {
 
     async fn write_data_to_stream(&mut self, msg: ResponseMessage) -> io::Result<()> {
         self.stream.write_all(&msg.data[..]).await?;
+        #[cfg(memcrs_verif)]
+        crate::verif::note_write(self.stream.peer_addr().map(|a| a.port()).unwrap_or(0), msg.data.len());
         Ok(())
     }
 
